@@ -2,7 +2,7 @@
     rename_blocks) and MincModel.v (heap of objects with rational volumes / distances / areas: minc, __add__, embed). *)
 From Coq Require Import Ascii String List Bool PArith NArith ZArith QArith FMapPositive Permutation.
 From PTBase Require Import Exn PyStr.
-From P Require Import Assoc GridPhys PhysLemmas PhysProofs PhysCompose MincModel MincLemmas MincProofs MincThms EmbedProofs MincBuild MincTotal RefuseProofs.
+From P Require Import Assoc GridPhys PhysLemmas PhysProofs PhysCompose MincModel MincLemmas MincProofs MincThms EmbedProofs MincBuild MincTotal RefuseProofs MincCounts.
 Import ListNotations.
 Open Scope list_scope.
 
@@ -181,3 +181,25 @@ Theorem example_refusals :
   minc default_mbname default_mrname ex_dd ex_aa ex_atm ex_h ex_t [1] [] = Raise PlainException.
 Proof. exact refusal_instance. Qed.
 Print Assumptions example_refusals.
+
+(** how much minc adds: exactly (number of fractions - 1) matrix blocks and as many nested connections per processed
+    block (selected, 0 < V < atmos_volume), nothing else *)
+Theorem minc_adds_exactly : forall mbname mrname dd aa atm h t fr blocks h' t', wf h t ->
+  NoDup (selection h t blocks) -> (forall n, In n (selection h t blocks) -> tbget t n <> None) ->
+  minc mbname mrname dd aa atm h t fr blocks = Ok (h', t') ->
+  let np := length (processed_names atm h t (selection h t blocks)) in
+  length (t_bl t') = (length (t_bl t) + np * (length fr - 1))%nat /\
+  length (t_cl t') = (length (t_cl t) + np * (length fr - 1))%nat.
+Proof. exact minc_counts. Qed.
+Print Assumptions minc_adds_exactly.
+(** an empty selection (empty grid, blocks=None) raises IndexError once the fraction count is accepted *)
+Theorem minc_refuses_empty_selection : forall mbname mrname dd aa atm h t fr blocks, (2 <= length fr)%nat ->
+  selection h t blocks = [] -> minc mbname mrname dd aa atm h t fr blocks = Raise IndexError.
+Proof. exact minc_empty_selection. Qed.
+Print Assumptions minc_refuses_empty_selection.
+Theorem example_minc_counts :
+  length (processed_names ex_atm ex_h ex_t (selection ex_h ex_t [])) = 2%nat /\
+  length (t_bl ex_t) = 3%nat /\ length (t_bl ex_t') = 5%nat /\ length (t_cl ex_t) = 2%nat /\ length (t_cl ex_t') = 4%nat /\
+  selection heap0 tabs0 [] = [].
+Proof. exact minc_counts_instance. Qed.
+Print Assumptions example_minc_counts.
